@@ -69,18 +69,13 @@ def readNumber (bits : Bytes) (bitStart bitCount : Nat) : Nat :=
 
 /-- `Readable for Proof` (`DeserializationMode::Full`) -/
 def decProof (c : Cfg) : Parser Proof := fun bs =>
-  match readU8 bs with
-  | .error e => .error e
-  | .ok (eb, r) =>
+  andThen (readU8 bs) fun eb r =>
     if eb = 0 ∨ eb > 63 then .error .corrupted else
-    let bytesLen := packLen c.proofSize eb
-    if bytesLen < 8 then .error .corrupted else
-    match readFixed bytesLen r with
-    | .error e => .error e
-    | .ok (bits, r) =>
+    if packLen c.proofSize eb < 8 then .error .corrupted else
+    andThen (readFixed (packLen c.proofSize eb) r) fun bits r =>
       let nonces := (List.range c.proofSize).map fun n => readNumber bits (n * eb) eb
       let endOfData := c.proofSize * eb
-      if readNumber bits endOfData (bytesLen * 8 - endOfData) ≠ 0 then .error .corrupted
+      if readNumber bits endOfData (packLen c.proofSize eb * 8 - endOfData) ≠ 0 then .error .corrupted
       else .ok ({ edgeBits := eb, nonces := nonces }, r)
 
 def Proof.hashBytes (proofSize : Nat) (p : Proof) : Bytes := encProof proofSize .hash p
@@ -100,18 +95,11 @@ def encProofOfWork (proofSize : Nat) (m : Mode) (p : ProofOfWork) : Bytes :=
   ++ encProof proofSize m p.proof
 
 def decProofOfWork (c : Cfg) : Parser ProofOfWork := fun bs =>
-  match readU64 bs with
-  | .error e => .error e
-  | .ok (td, r) =>
-  match readU32 r with
-  | .error e => .error e
-  | .ok (ss, r) =>
-  match readU64 r with
-  | .error e => .error e
-  | .ok (nonce, r) =>
-  match decProof c r with
-  | .error e => .error e
-  | .ok (pf, r) => .ok ({ totalDifficulty := td, secondaryScaling := ss, nonce := nonce, proof := pf }, r)
+  andThen (readU64 bs) fun td r =>
+  andThen (readU32 r) fun ss r =>
+  andThen (readU64 r) fun nonce r =>
+  andThen (decProof c r) fun pf r =>
+  .ok ({ totalDifficulty := td, secondaryScaling := ss, nonce := nonce, proof := pf }, r)
 
 /-! ## BlockHeader -/
 
@@ -152,42 +140,18 @@ def encBlockHeader (proofSize : Nat) (m : Mode) (h : BlockHeader) : Bytes :=
 
 /-- `read_block_header` -/
 def decBlockHeader (c : Cfg) : Parser BlockHeader := fun bs =>
-  match readU16 bs with
-  | .error e => .error e
-  | .ok (version, r) =>
-  match readU64 r with
-  | .error e => .error e
-  | .ok (height, r) =>
-  match readI64 r with
-  | .error e => .error e
-  | .ok (timestamp, r) =>
-  match decHash r with
-  | .error e => .error e
-  | .ok (prevHash, r) =>
-  match decHash r with
-  | .error e => .error e
-  | .ok (prevRoot, r) =>
-  match decHash r with
-  | .error e => .error e
-  | .ok (outputRoot, r) =>
-  match decHash r with
-  | .error e => .error e
-  | .ok (rangeProofRoot, r) =>
-  match decHash r with
-  | .error e => .error e
-  | .ok (kernelRoot, r) =>
-  match decBlind r with
-  | .error e => .error e
-  | .ok (tko, r) =>
-  match readU64 r with
-  | .error e => .error e
-  | .ok (oms, r) =>
-  match readU64 r with
-  | .error e => .error e
-  | .ok (kms, r) =>
-  match decProofOfWork c r with
-  | .error e => .error e
-  | .ok (pow, r) =>
+  andThen (readU16 bs) fun version r =>
+  andThen (readU64 r) fun height r =>
+  andThen (readI64 r) fun timestamp r =>
+  andThen (decHash r) fun prevHash r =>
+  andThen (decHash r) fun prevRoot r =>
+  andThen (decHash r) fun outputRoot r =>
+  andThen (decHash r) fun rangeProofRoot r =>
+  andThen (decHash r) fun kernelRoot r =>
+  andThen (decBlind r) fun tko r =>
+  andThen (readU64 r) fun oms r =>
+  andThen (readU64 r) fun kms r =>
+  andThen (decProofOfWork c r) fun pow r =>
     if timestamp > TS_MAX ∨ timestamp < TS_MIN then .error .corrupted
     else .ok ({ version := version, height := height, prevHash := prevHash, prevRoot := prevRoot,
                 timestamp := timestamp, outputRoot := outputRoot, rangeProofRoot := rangeProofRoot,
@@ -213,12 +177,9 @@ def encBlock (key : Bytes → Nat) (proofSize ver : Nat) (m : Mode) (b : Block) 
 
 /-- `Readable for Block` -/
 def decBlock (c : Cfg) : Parser Block := fun bs =>
-  match decBlockHeader c bs with
-  | .error e => .error e
-  | .ok (h, r) =>
-    match decTxBody c r with
-    | .error e => .error e
-    | .ok (b, r) => .ok ({ header := h, body := b }, r)
+  andThen (decBlockHeader c bs) fun h r =>
+  andThen (decTxBody c r) fun b r =>
+  .ok ({ header := h, body := b }, r)
 
 /-- `Hashed for Block`: the header's hash -/
 def Block.hashBytes (proofSize : Nat) (b : Block) : Bytes := b.header.hashBytes proofSize
@@ -251,24 +212,12 @@ def CompactBlockBody.verifySorted (key : Bytes → Nat) (b : CompactBlockBody) :
 
 /-- `Readable for CompactBlockBody` (no weight pre-check; only the `read_multi` cap) -/
 def decCompactBody (c : Cfg) : Parser CompactBlockBody := fun bs =>
-  match readU64 bs with
-  | .error e => .error e
-  | .ok (no, r) =>
-  match readU64 r with
-  | .error e => .error e
-  | .ok (nk, r) =>
-  match readU64 r with
-  | .error e => .error e
-  | .ok (ni, r) =>
-  match readMulti decOutput no r with
-  | .error e => .error e
-  | .ok (outs, r) =>
-  match readMulti (decTxKernel c) nk r with
-  | .error e => .error e
-  | .ok (kers, r) =>
-  match readMulti decShortId ni r with
-  | .error e => .error e
-  | .ok (ids, r) =>
+  andThen (readU64 bs) fun no r =>
+  andThen (readU64 r) fun nk r =>
+  andThen (readU64 r) fun ni r =>
+  andThen (readMulti decOutput no r) fun outs r =>
+  andThen (readMulti (decTxKernel c) nk r) fun kers r =>
+  andThen (readMulti decShortId ni r) fun ids r =>
     let body : CompactBlockBody := { outFull := outs, kernFull := kers, kernIds := ids }
     match body.verifySorted c.key with
     | .error _ => .error .corrupted
@@ -286,15 +235,10 @@ def encCompactBlock (proofSize ver : Nat) (m : Mode) (b : CompactBlock) : Bytes 
   ++ (if m = .hash then [] else writeU64 b.nonce ++ encCompactBody ver m b.body)
 
 def decCompactBlock (c : Cfg) : Parser CompactBlock := fun bs =>
-  match decBlockHeader c bs with
-  | .error e => .error e
-  | .ok (h, r) =>
-    match readU64 r with
-    | .error e => .error e
-    | .ok (nonce, r) =>
-      match decCompactBody c r with
-      | .error e => .error e
-      | .ok (b, r) => .ok ({ header := h, nonce := nonce, body := b }, r)
+  andThen (decBlockHeader c bs) fun h r =>
+  andThen (readU64 r) fun nonce r =>
+  andThen (decCompactBody c r) fun b r =>
+  .ok ({ header := h, nonce := nonce, body := b }, r)
 
 def CompactBlock.hashBytes (proofSize : Nat) (b : CompactBlock) : Bytes := b.header.hashBytes proofSize
 
@@ -311,17 +255,10 @@ def encTip (t : Tip) : Bytes :=
   writeU64 t.height ++ writeFixed t.lastBlockH ++ writeFixed t.prevBlockH ++ writeU64 t.totalDifficulty
 
 def decTip : Parser Tip := fun bs =>
-  match readU64 bs with
-  | .error e => .error e
-  | .ok (height, r) =>
-  match decHash r with
-  | .error e => .error e
-  | .ok (last, r) =>
-  match decHash r with
-  | .error e => .error e
-  | .ok (prev, r) =>
-  match readU64 r with
-  | .error e => .error e
-  | .ok (td, r) => .ok ({ height := height, lastBlockH := last, prevBlockH := prev, totalDifficulty := td }, r)
+  andThen (readU64 bs) fun height r =>
+  andThen (decHash r) fun last r =>
+  andThen (decHash r) fun prev r =>
+  andThen (readU64 r) fun td r =>
+  .ok ({ height := height, lastBlockH := last, prevBlockH := prev, totalDifficulty := td }, r)
 
 end GV.Ser
